@@ -7,10 +7,15 @@
 (*                                                                                       *)
 (* Events (every field always present, uniformly typed):                                 *)
 (*   Put    name, len, kind, ok, names, lens, kinds     (observed holder after the call) *)
+(*   Store  name, len, kind, ok, names, lens, kinds     (observed holder after the call) *)
+(*   Delete name, ok, names, lens, kinds                (observed holder after the call) *)
+(*   List   ok, list, names, lens, kinds                (holder before the call)         *)
 (*   Solve  h, vs, ok, must, names, lens, kinds         (observed holder after the call; *)
 (*          must: the replayed behaviour has a successful solve here)                     *)
 (*   Render fmt, ok, header, rows, cells, names, lens, kinds  (holder before the call)   *)
 (*   End                                                                                 *)
+(* The events of one trace may come in any order and number: every Render is judged      *)
+(* against the holder observed at that moment.                                           *)
 (* names / header / vs: lists of code-point lists; cells: list of rows of Booleans, the  *)
 (* driver's predicate "cell (i, j) parses back to value i of the series named by column  *)
 (* j of the observed header within the precision of the format".                         *)
@@ -52,9 +57,29 @@ JudgeRender(e) ==
     ELSE IF e.header # table'.header \/ e.rows # table'.rows THEN Drift("render_differs_from_spec")
     ELSE Ok
 
+(* kinds are only predicted for a holder the driver filled itself: a solver may leave int values *)
+SameState(e) == IF phase = "build" THEN Obs(e) = holder' ELSE LensOf(Obs(e)) = LensOf(holder')
+
 JudgePut(e) ==
     IF ~e.ok THEN Drift("put_raises")
-    ELSE IF Obs(e) # holder' THEN Drift("put_state")
+    ELSE IF ~SameState(e) THEN Drift("put_state")
+    ELSE Ok
+
+JudgeStore(e) ==
+    IF ~e.ok THEN Drift("store_raises")
+    ELSE IF ~SameState(e) THEN Drift("store_state")
+    ELSE Ok
+
+JudgeDelete(e) ==
+    IF ~e.ok THEN Drift("delete_raises")
+    ELSE IF ~SameState(e) THEN Drift("delete_state")
+    ELSE Ok
+
+(* GetSeriesList() is the mechanism, not the table: a wrong list is reported as drift; the *)
+(* property is judged where the statement puts it, on the text of the next Render.        *)
+JudgeList(e) ==
+    IF ~e.ok THEN Drift("list_raises")
+    ELSE IF e.list # RequiredHeader(DOMAIN Obs(e)) THEN Drift("series_list")
     ELSE Ok
 
 JudgeSolve(e) ==
@@ -69,6 +94,15 @@ TraceNext ==
        \/ /\ e.ev = "Put"
           /\ Put(e.name, e.len, e.kind)
           /\ verdict' = Worse(verdict, JudgePut(e))
+       \/ /\ e.ev = "Store"
+          /\ Store(e.name, e.len, e.kind)
+          /\ verdict' = Worse(verdict, JudgeStore(e))
+       \/ /\ e.ev = "Delete"
+          /\ Delete(e.name)
+          /\ verdict' = Worse(verdict, JudgeDelete(e))
+       \/ /\ e.ev = "List"
+          /\ List
+          /\ verdict' = Worse(verdict, JudgeList(e))
        \/ /\ e.ev = "Solve"
           /\ e.ok
           /\ Solve(Range(e.vs), e.h)
@@ -83,7 +117,7 @@ TraceNext ==
        \/ /\ e.ev = "End"
           /\ PrintT(<< "VERDICT", e.tid, verdict.kind \o ":" \o verdict.clause >>)
           /\ phase' = "build" /\ holder' = EmptyHolder /\ solved' = NotSolved
-          /\ table' = NoTable /\ puts' = << >> /\ renders' = << >>
+          /\ table' = NoTable /\ hist' = << >>
           /\ verdict' = Ok
 
 TraceSpec == TraceInit /\ [][TraceNext]_tvars
